@@ -1018,6 +1018,57 @@ fn run_case(rt: &Runtime, w: &World, c: &[u64]) -> Option<(Vec<u64>, Vec<u64>)> 
                     dump(&store_of(w, &node.manager, q), &mut out);
                 }
             }
+            15 => {
+                // dial_address while every transport's dial() returns an error
+                let a = r.maddr()?;
+                let _ = r.maddrs()?;
+                let real = real_of(w, &a)?;
+                enc_abs(&a, &mut case);
+                let named = match a.last() {
+                    Some((10, p)) => Some(*p),
+                    _ => None,
+                };
+                for script in [&node.tcp, &node.ws, &node.quic].into_iter().flatten() {
+                    let _ = script.take_calls();
+                    script.set_failures(false, true, false, false);
+                }
+                let result = rt.block_on(node.manager.dial_address(real.clone()));
+                let mut asked = Vec::new();
+                for (i, script) in [&node.tcp, &node.ws, &node.quic].into_iter().enumerate() {
+                    if let Some(script) = script {
+                        script.set_failures(false, false, false, false);
+                        for call in script.take_calls() {
+                            if let VerifCall::Dial(_) = call {
+                                asked.push(i);
+                            }
+                        }
+                    }
+                }
+                let code = match &result {
+                    // the scripted transport's refusal
+                    Err(Error::ConnectionDoesntExist(_)) if asked.len() == 1 => 0,
+                    Err(Error::ConnectionLimit(_)) => 1,
+                    Err(Error::TriedToDialSelf) => 2,
+                    Err(Error::AddressError(AddressError::PeerIdMissing)) => 6,
+                    Err(Error::TransportNotSupported(_)) => 7,
+                    _ => 99,
+                };
+                out.extend([10, code]);
+                if code == 0 {
+                    let q = named.expect("dialed an address without a peer id");
+                    out.extend([asked[0] as u64, q]);
+                    let state = node.manager.verif_peer_state(&w.peers[q as usize]);
+                    assert!(state[0] == 0, "peer not disconnected after the refused dial: {state:?}");
+                    assert!(!node.limited || node.outgoing() == node.held.len(), "limit counter differs");
+                } else {
+                    assert!(asked.is_empty(), "a refused address reached a transport");
+                }
+                enc_list(&evicted(w), &mut case);
+                out.push(0);
+                if let Some(q) = named {
+                    dump(&store_of(w, &node.manager, q), &mut out);
+                }
+            }
             13 => {
                 // TransportService::add_known_address (returns nothing: the count is the one the
                 // handle's add_known_address computed for this call)
@@ -1498,7 +1549,7 @@ impl<'a> Gen<'a> {
         if self.rng.chance(60) {
             self.rng.pick(&self.ports)
         } else {
-            self.rng.range(1, self.max_port)
+            self.rng.range(0, self.max_port)
         }
     }
 
@@ -2080,10 +2131,17 @@ fn gen_case(rng: &mut Rng, codes: &[u64], pools: &Pools, index: u64, thorough: b
                 _ => g.addr(peer),
             };
             g.remember(peer, &a);
-            let res = if g.rng.chance(35) { 0 } else { g.err_code() + 1 };
-            c.push(10);
-            enc_abs(&a, &mut c);
-            c.extend([res, 0]);
+            if g.rng.chance(12) {
+                // the transport refuses to start the dial
+                c.push(15);
+                enc_abs(&a, &mut c);
+                c.push(0);
+            } else {
+                let res = if g.rng.chance(35) { 0 } else { g.err_code() + 1 };
+                c.push(10);
+                enc_abs(&a, &mut c);
+                c.extend([res, 0]);
+            }
         } else {
             // dial(peer): half of the attempts fail completely, the others succeed somewhere;
             // the failing attempts time out (tag 7) or fail with kinds of every sort (tag 9)
